@@ -2,6 +2,7 @@ import TracklibVerif.Model.DTWTable
 import TracklibVerif.Lemmas.DTW
 /-! Refinement: the executable table form of `_dtw` (`Model/DTWTable.lean`) equals the function-style
 `T` / `pred` of `Model/DTW.lean`; properties of the backward walk. -/
+set_option linter.unusedSectionVars false
 namespace TV.DTW
 variable {α : Type} [LinearOrder α]
 
@@ -425,7 +426,7 @@ variable {α : Type} [Add α] [Sub α] [Mul α] [Div α] [LT α] [LE α] [Decida
 /-- the partners that the pairs of `L` (in visiting order) give to observation `j` of track1 -/
 def partners (L : List (Nat × Nat)) (j : Nat) : List Nat := (L.filter (fun s => s.2 == j)).map (·.1)
 
-omit [Div α] [LE α] [DecidableLE α] in
+omit [Add α] [Mul α] [Div α] [LT α] [DecidableLT α] [LE α] [DecidableLE α] in
 theorem fill_foldl (dist : Pt α → Pt α → α) (t1 t2 : List (Pt α)) :
     ∀ (L : List (Nat × Nat)) (rows : List (Row α)) (nb : Nat), rows.length = t1.length →
       (∀ s ∈ L, s.1 < t2.length ∧ s.2 < t1.length) →
@@ -496,7 +497,7 @@ variable {α : Type} [Add α] [Sub α] [Mul α] [Div α] [LinearOrder α] [OfNat
 def Dmat (dist : Pt α → Pt α → α) (t1 t2 : List (Pt α)) (i j : Nat) : α :=
   dist (t2[i]?.getD ⟨0, 0, 0⟩) (t1[j]?.getD ⟨0, 0, 0⟩)
 
-omit [Div α] in
+omit [Add α] [Sub α] [Mul α] [Div α] in
 theorem distCols_eq (dist : Pt α → Pt α → α) (t1 t2 : List (Pt α)) :
     distCols dist t1 t2 = dcols (Dmat dist t1 t2) t1.length t2.length := by
   unfold distCols dcols Dmat
